@@ -48,7 +48,7 @@ ASSUMPTIONS = [
 
 NETWORK_FAULTS = {"duplicate", "delay", "drop", "late_before_next", "replay_earlier", "replay_create"}
 MANIPS = ["flip_identifier", "flip_key", "flip_auth", "flip_candidates", "flip_cid", "substitute", "swap_other",
-          "replay_earlier", "duplicate", "delay", "drop", "late_before_next", "flip_candidates_then_original", "impostor", "substitute_empty"]
+          "replay_earlier", "duplicate", "delay", "drop", "late_before_next", "flip_candidates_then_original", "impostor", "substitute_empty", "own_created_replayed"]
 
 
 def parse_created(msg: bytes) -> dict | None:
@@ -147,6 +147,8 @@ class Run:
                 self.held = []
                 m = manips.get(n)
                 self.wire_Y.append(cd["key"])
+                if fl.dst == origin.address and self.first_created is None:
+                    self.first_created = (fl.src, fl.dst, bytes(fl.data))
                 if m is None:
                     self.stash.append(fl.data)
                     return None
@@ -203,6 +205,22 @@ class Run:
                     del data[base + cd["rest_off"]:]
                     self.wire_Y.append(bytes(Yp))
                     self.attacker_s1 = s1
+                elif kind == "own_created_replayed":
+                    # a misbehaving first hop answers the pending extend by replaying ITS OWN created answer of the first
+                    # exchange, with nothing changed but the identifier (it knows the extend's identifier)
+                    if fl.dst == origin.address or self.first_created is None:
+                        return None
+                    rep = bytearray(self.first_created[2])
+                    # (the identifier of the pending extend travels encrypted to the first hop: the harness reads the
+                    # value the first hop knows from the originator's pending request)
+                    from ipv8.messaging.anonymization.caches import RetryRequestCache
+                    pend = origin.overlay.request_cache.get(RetryRequestCache, struct.unpack(">I", rep[23:27])[0])
+                    if pend is None:
+                        return None
+                    rep[base + 1:base + 3] = struct.pack(">H", pend.packet_identifier)
+                    self.applied.append((kind, n))
+                    w.net.inject(self.first_created[0], self.first_created[1], bytes(rep), note="own created replayed")
+                    return []
                 elif kind == "swap_other":
                     if not self.stash:
                         return None
@@ -253,6 +271,7 @@ class Run:
                 fl.data = bytes(data)
                 return out
             self.replay_later = None
+            self.first_created = None
             self.creates: list = []
             create_replayed = False
             self.held = []
